@@ -97,11 +97,22 @@ _rig = {}
 
 
 def canonical (raw):
-  import pox.lib.packet as pkt
-  try:
-    return pkt.ethernet(raw).pack() == raw
-  except Exception:
-    return False
+  """
+  Frames that the packet library is known to re-serialise differently even
+  when the switch touches nothing are left to C14/C15.  The decision is made
+  on the bytes by the reference parser, never by asking the library under
+  test (a library that stops reproducing some class of valid frames must
+  show up here as a wrong emission, not disappear as "non canonical").
+  The classes: UDP sent without checksum, ICMP errors that quote a datagram,
+  IPv6.
+  """
+  d = F.parse(raw)
+  if d.get("l3type") == 0x86dd: return False
+  ipd = d.get("ip")
+  if ipd is not None:
+    if "udp" in d and d["udp"]["csum"] == 0: return False
+    if "icmp" in d and d["icmp"]["type"] in (3, 11): return False
+  return True
 
 
 def expected_for (raw, actions, in_port, cfg, via, table_flow, stay):
@@ -333,7 +344,7 @@ def gen_action (rng, allow_table):
 def gen_case (rng):
   via = rng.choice(["packet_out", "flow", "flow"])
   kind = rng.choice(["tcp", "udp", "icmp", "arp_req", "other", "tcp_opts",
-                     "ipother", "frag_later", "tcp", "udp"])
+                     "ipother", "frag_later", "frag_first", "tcp", "udp"])
   dst = None
   if rng.random() < 0.1: dst = OA.STP_MAC
   raw, desc = framegen.gen_frame(rng, kind, pad=False, dst=dst,
